@@ -103,7 +103,7 @@ func ruleALIAS1(c *Ctx) {
 			n++
 			key := "append:" + f.Name + ":" + exprString(first)
 			c.Oblige(key, call.Pos(), freshSlice(info, first),
-				"append(" + exprString(first) + ", ...) is stored into a different place than its first operand, so both may share one backing array and later appends overwrite each other")
+				"append("+exprString(first)+", ...) is stored into a different place than its first operand, so both may share one backing array and later appends overwrite each other")
 			return true
 		})
 	}
